@@ -1,6 +1,7 @@
 """C11 - value comparison is a total preorder and every consumer agrees with it.
 Oracle: order axioms + independent comparator (refval.rcmp); monitors: value_compare contract, consumer scripts."""
 import datetime
+import functools
 import itertools
 import json
 import random
@@ -47,6 +48,9 @@ def pool():
         {}, {'a': 1}, {'a': 1.0}, {'a': 2}, {'b': 1}, {'a': 1, 'b': 2}, {'b': 2, 'a': 1}, {'a': None}, {'a': [1]}, {'a': {'b': 1}}, {'a': {'b': 1.0}}, {'': 0}, {'a': True}, {'a': False}, {'a': 0}, {'a': [True]}, {'a': {'b': True}}, {'a': {'b': 0}}, {'a': 1, 'b': True}, {'a': '1'}, {'b': 1, 'a': 2}, {'b': 2, 'a': 1}, {'b': 0, 'a': 3}, {'c': 1, 'b': 5, 'a': 0}, {'c': 2, 'b': 0, 'a': 0}, {'z': [1], 'y': [2]}, {'z': [2], 'y': [1]}, {'b': 0, 'c': 1}, {'a': 1, 'b': 1}, {'a': 0, 'c': 2}, {'b': 5, 'c': 0}, {'a': 9, 'c': 0}, {'b': 1, 'd': 0},
         [1, 3], [1, 2, 3], [3], [2, 1], [[2]], [[1, 3]], [0, 5], [False], [0], [[True]], [[1]],
         f1, f2, re.compile('a'), re.compile('b'),
+        # functions of every host kind are values of the ONE type function: a partial application (what a script function and a
+        # systemPartial result are), a built-in, a lambda
+        functools.partial(f1), functools.partial(f2, [1]), len, (lambda args, options: 3),
     ]
     # derived nested values up to depth 3
     nested = []
@@ -233,9 +237,16 @@ function run(xs, a, b):
 endfunction
 return run(xs, a, b)
 ''')
-    for i in range(spec['n']):
+    special = [v for v in P if callable(v) or isinstance(v, re.Pattern)]
+    special += [[special[0]], [special[1]], {'a': special[-5]}, {'a': special[-6]}, [1], 'a', 1]
+    directed = [(a, b) for a in special for b in special] if spec['shard'] == 0 else []
+    for i in range(spec['n'] + len(directed)):
         xs = [rnd.choice(P) for _ in range(rnd.randint(3, 9))]
         a = rnd.choice(xs) if rnd.random() < 0.6 else rnd.choice(P)
+        if i >= spec['n']:
+            # every pair of function / regex values (and containers of them) through all consumers: operators included
+            a, b_directed = directed[i - spec['n']]
+            xs = [a, b_directed, a] + xs[:2]
         if rnd.random() < 0.3:
             a = flt(a)
         if i % 4 == 1:
@@ -245,7 +256,7 @@ return run(xs, a, b)
             if twins:
                 a = rnd.choice(twins)[1]
                 acc.count('needle_equal_but_other_value')
-        b = rnd.choice(P)
+        b = rnd.choice(P) if i < spec['n'] else b_directed
         case = {'xs': refval.enc(xs), 'a': refval.enc(a), 'b': refval.enc(b)}
         acc.case((repr(refval.canon(xs)), repr(refval.canon(a)), repr(refval.canon(b))), True)
         try:
